@@ -62,6 +62,13 @@ def cfgs_for(d, p, cfgset, tier):
         for stt in ('both', 'primal', 'dual'):
             out.append({'entry': 'conelp', 'storage': 'dense', 'kkt': None, 'start': stt})
             out.append({'entry': 'conelp', 'storage': 'sparse', 'kkt': 'ldl', 'start': stt, 'opts': LOOSE})
+        if d['l'] + sum(d['q']) + sum(d['s']) > 0:
+            for bad in (('s', 'neg'), ('z', 'neg'), ('s', 'zero'), ('z', 'zero')):
+                out.append({'entry': 'conelp', 'storage': 'dense', 'kkt': None, 'start': 'both', 'badstart': bad})
+            ent = 'lp' if only_l else ('socp' if not d['s'] else ('sdp' if not d['q'] else None))
+            if ent:
+                out.append({'entry': ent, 'storage': 'dense', 'kkt': None, 'start': 'both', 'badstart': ('z', 'neg')})
+                out.append({'entry': ent, 'storage': 'sparse', 'kkt': 'ldl', 'start': 'primal', 'badstart': ('s', 'neg')})
         if d['s']:
             out.append({'entry': 'conelp', 'storage': 'dense', 'kkt': None, 'junk': 77.0})
             out.append({'entry': 'conelp', 'storage': 'sparse', 'kkt': 'ldl2', 'junk': 77.0, 'opts': LOOSE})
@@ -151,7 +158,9 @@ def run(case, prop, which, tier='quick'):
             res, args = solve.call(inst, cfg)
             n += 1
             nv = len(O.viol)
-            if isinstance(res, Exception):
+            if cfg.get('badstart') and solve.bad_start_outcome(O, res, cfg['badstart'][0]):
+                lab = 'invalid-start:' + type(res).__name__
+            elif isinstance(res, Exception):
                 lab = 'exc:' + type(res).__name__
             else:
                 lab = str(res.get('status'))
